@@ -59,20 +59,27 @@ class BitIO:
         @functools.wraps(o_winit)
         def w_init(self_, *a, **kw):
             o_winit(self_, *a, **kw)
-            self_._pv_bits, self_._pv_pos, self_._pv_depth = 0, 0, 0
+            self_._pv_bits, self_._pv_pos, self_._pv_depth, self_._pv_len = 0, 0, 0, 0
 
         @functools.wraps(o_write)
         def write_bits(self_, value, bit_length):
             if self_._pv_depth:
                 return o_write(self_, value, bit_length)
+            if self_._bit_offset != self_._pv_pos:
+                # the position was moved from outside between two calls (the repository's unit tests rewind the writer by
+                # hand; serialize() never does): follow it instead of reporting a difference the writer did not cause
+                mon.count("bitio-writer-resync")
+                self_._pv_pos = self_._bit_offset
             self_._pv_depth += 1
             try:
                 o_write(self_, value, bit_length)
             finally:
                 self_._pv_depth -= 1
             mon.count("bitio-write")
-            self_._pv_bits |= (int(value) & ((1 << bit_length) - 1)) << self_._pv_pos
+            m = ((1 << bit_length) - 1) << self_._pv_pos
+            self_._pv_bits = (self_._pv_bits & ~m) | ((int(value) << self_._pv_pos) & m)  # overwrite-capable, like the real buffer
             self_._pv_pos += bit_length
+            self_._pv_len = max(self_._pv_len, self_._pv_pos)
             if self_._bit_offset != self_._pv_pos:
                 mon.fail("bitio/writer-offset", "after write_bits(%r, %r): offset %r, shadow %r" % (
                     value, bit_length, self_._bit_offset, self_._pv_pos))
@@ -88,7 +95,11 @@ class BitIO:
                 self_._pv_depth -= 1
             mon.count("bitio-write")
             if bit_alignment > 0:
-                self_._pv_pos += (-self_._pv_pos) % bit_alignment
+                pad = (-self_._pv_pos) % bit_alignment
+                m = ((1 << pad) - 1) << self_._pv_pos
+                self_._pv_bits &= ~m
+                self_._pv_pos += pad
+                self_._pv_len = max(self_._pv_len, self_._pv_pos)
             if self_._bit_offset != self_._pv_pos:
                 mon.fail("bitio/writer-offset", "after align_to(%r): offset %r, shadow %r" % (
                     bit_alignment, self_._bit_offset, self_._pv_pos))
@@ -97,7 +108,7 @@ class BitIO:
         def finish(self_):
             out = o_finish(self_)
             mon.count("bitio-finish")
-            exp = self_._pv_bits.to_bytes((self_._pv_pos + 7) // 8, "little")
+            exp = self_._pv_bits.to_bytes((self_._pv_len + 7) // 8, "little")
             if bytes(out) != exp:
                 mon.fail("bitio/writer-buffer", "finish(): real buffer %s differs from the shadow %s" % (bytes(out).hex(), exp.hex()))
             return out
